@@ -31,7 +31,14 @@ func channelTypes(p *core.Prog, pkgSuffix string) []*types.Named {
 func closureSiteIn(root *ssa.Function, fn *ssa.Function, at ssa.Instruction) ssa.Instruction {
 	for fn != root {
 		if fn.Parent() == nil {
-			return nil
+			// a "virtual closure": the only call (go/defer) of an unexported function
+			site := core.InlineSite[fn]
+			if site == nil {
+				return nil
+			}
+			at = site
+			fn = site.Parent()
+			continue
 		}
 		sites := core.ClosureSites(fn)
 		if len(sites) == 0 {
@@ -445,6 +452,10 @@ func derivesFromString(v ssa.Value, param ssa.Value) bool {
 		}
 		seen[v] = true
 		switch x := v.(type) {
+		case *ssa.Parameter:
+			if r := core.ResolveFree(x); r != v {
+				return rec(r)
+			}
 		case *ssa.Phi:
 			for _, e := range x.Edges {
 				if !rec(e) {
